@@ -143,6 +143,43 @@ def r8_handler_bound_to_its_server(ck, cx, rule='R8'):
     ck.floor(rule, m, 3, 'constructor paths of the asyncio handlers')
 
 
+
+def r9_read_size_covers_an_adu(ck, cx, rule='R9'):
+    """The other front-ends (asyncio, Twisted) hand the framer whatever the event loop read -- up to 64 KiB -- and a datagram whole.
+    The threaded front-end chooses the size itself: `recv(N)` in its handlers and `max_packet_size` of its UDP server.  A datagram
+    longer than N is truncated by the kernel and lost; on the stream handlers a request longer than N is split across two reads,
+    which this framer does not survive (C06).  The largest legal request ADU on the socket framing is 7 + 253 = 260 bytes, so N >= 260
+    is necessary for the threaded front-end to serve what the others serve."""
+    ck.rule(rule, 'the threaded front-end asks its transport for at least one maximum-size ADU (260 bytes) per read: recv(N) in the handlers and max_packet_size of the UDP server')
+    mod = cx.idx.mod('pymodbus.server.sync')
+    n = 0
+    MAX_ADU = 260
+    for k in mod.classes.values():
+        for fn in k.methods.values():
+            for c in ast.walk(fn.node):
+                if isinstance(c, ast.Call) and isinstance(c.func, ast.Attribute) and c.func.attr in ('recv', 'recvfrom', 'read') and c.args \
+                        and U(c.func.value) in ('self.request', 'self.socket', 'self.rfile'):
+                    n += 1
+                    v = cx.ce.try_ev(c.args[0], fn.mod, k, default=None)
+                    ck.saw('functions', fn.qn)
+                    if k.name == 'ModbusSingleRequestHandler' and isinstance(v, int) and v >= 256:
+                        ck.ob(rule, fn.qn, 'the serial handler asks for at least one serial ADU (256 bytes)', True)
+                        continue        # serial line: the RTU ADU limit is 256 bytes
+                    ck.ob(rule, fn.qn, '`%s` asks for at least %d bytes' % (U(c)[:40], MAX_ADU), not isinstance(v, int) or v >= MAX_ADU,
+                          detail='read-size-below-max-adu %s' % v, loc=cx.floc(fn, c),
+                          message='%s reads at most %s bytes per pass: a maximum-size request (write of 123 registers / 1968 coils: 259-260 bytes on the socket '
+                                  'framing) arrives in two pieces, which the framer answers by dropping it or closing the connection, while the asyncio and '
+                                  'Twisted front-ends serve it' % (fn.qn, v))
+        for name in ('max_packet_size',):
+            if name in k.attrs:
+                n += 1
+                v = cx.ce.try_ev(k.attrs[name], k.mod, k, default=None)
+                ck.ob(rule, k.qn, '%s.%s >= %d' % (k.name, name, MAX_ADU), not isinstance(v, int) or v >= MAX_ADU, detail='datagram-size-below-max-adu %s' % v, loc=k.loc,
+                      message='%s sets max_packet_size = %s: a datagram carrying a maximum-size request (259-260 bytes) is truncated by the kernel and '
+                              'dropped without an answer, while the other datagram front-ends serve it' % (k.qn, v))
+    ck.floor(rule, n, 2, 'transport reads of the threaded front-end')
+
+
 def run(ck, tier):
     cx = Ctx()
     ck.rule('R1', 'execute summaries (exception->response map, id copies, send count, context key) equal those of the reference front-end')
@@ -211,4 +248,5 @@ def run(ck, tier):
     from .. import ownership as _own
     ck.guard(_own.rule_instance_owned, ck, cx, 'R7', _own.FRAMERS, 'framing state is no longer private to a connection', 4)
     ck.guard(r8_handler_bound_to_its_server, ck, cx)
+    ck.guard(r9_read_size_covers_an_adu, ck, cx)
     return cx.idx
